@@ -24,11 +24,20 @@ class Random:
             return random.uniform(start, end)
 
         scale_factor = 10 ** precision
-        left_number = int(start * scale_factor)
-        right_number = int(end * scale_factor)
+        # nearest grid points, moved inside [start, end] if rounding stepped out of it
+        left_number = round(start * scale_factor)
+        right_number = round(end * scale_factor)
+        if round(left_number / scale_factor, precision) < start:
+            left_number += 1
+        if round(right_number / scale_factor, precision) > end:
+            right_number -= 1
+        if left_number > right_number:
+            # no grid point inside [start, end]: the result is clamped to the interval below
+            right_number = left_number
 
         result = cast(float, self.random_int(left_number, right_number) / scale_factor)
-        return round(result, precision)
+        # on a grid finer than float spacing the result may still be one ulp off
+        return min(max(round(result, precision), start), end)
 
     def random_str(self, length: int, alphabet: str) -> str:
         return "".join(random.choice(alphabet) for _ in range(length))
